@@ -308,7 +308,10 @@ class History:
         X, y = self.data
 
         def thunk():
-            self.env[r].fit(X, y)
+            import contextlib
+            import io
+            with contextlib.redirect_stdout(io.StringIO()):      # "did not converge" is printed, not warned
+                self.env[r].fit(X, y)
             return 'ok'
         m = self._do(['fit', 'r%d' % r] + self._data_tokens(), thunk, dict(r=r))
         if m is not None and not m['ok'] and '_validate_data_dep_params' not in m['tb']:
